@@ -64,6 +64,8 @@ class World:
         self.seed = seed * 1000
         self.vmap: Dict[str, int] = {}
         self.rmap: Dict[str, int] = {}
+        self.pmap: Dict[str, int] = {}
+        self.nclauses: Dict[str, int] = {"d1": 0, "d2": 0, "d3": 0}
 
     # ---------------------------------------------------------------- hedgers
     def make_hedger(self):
@@ -137,6 +139,24 @@ class World:
     def npaths(self) -> Dict[str, int]:
         return {p: (prim.spot.size(0) if dict(prim.named_buffers()) else 0) for p, prim in self.prim.items()}
 
+    def params_of(self, h: str) -> List[torch.Tensor]:
+        hd = self.hedgers[h]
+        ps = list(hd.model.parameters())
+        for f in hd.inputs.features:
+            if isinstance(f, torch.nn.Module):
+                ps += list(f.parameters())
+        return ps
+
+    def pversions(self) -> Dict[str, int]:
+        out = {}
+        for h in ("h1", "h2"):
+            ps = self.params_of(h)
+            key = thash(*ps) if ps else "no-parameters"
+            if key not in self.pmap:
+                self.pmap[key] = len(self.pmap) + 1
+            out[h] = self.pmap[key]
+        return out
+
     def rid(self, t: torch.Tensor) -> int:
         h = thash(t)
         if h not in self.rmap:
@@ -151,6 +171,19 @@ class World:
             self.seed += 1
             torch.manual_seed(self.seed)
             dv.simulate(n_paths=n)
+            return None
+        if op == "AddClause":
+            k = self.nclauses[d]
+            dv.add_clause(f"clause{k}", (lambda dd, p: p * 2 + 1) if k == 0 else (lambda dd, p: p.clamp(max=1.25)))
+            self.nclauses[d] = k + 1
+            return None
+        if op == "Fit":
+            params = self.params_of(h)
+            if not params:
+                raise NoParameters()
+            self.seed += 1
+            torch.manual_seed(self.seed)
+            hd.fit(dv, n_paths=n, n_epochs=1, optimizer=torch.optim.SGD(params, lr=0.05), validation=False, verbose=False)
             return None
         if op == "Payoff":
             return dv.payoff()
@@ -190,6 +223,10 @@ class World:
         raise MachineryError(f"unknown op {op}")
 
 
+class NoParameters(Exception):
+    """fit() of a parameter-free hedger (Black-Scholes, Whalley-Wilmott, Identity): outside the session model."""
+
+
 READ_ONLY = {"Payoff", "Features", "ListedSpot", "ComputeHedge", "ComputePortfolio", "ComputePL"}
 
 
@@ -210,13 +247,31 @@ def replay_history(ctx: Ctx, hist: List[Dict[str, Any]], kind: str, seed: int) -
             if mid != before:
                 ctx.violation(f"purity:{op}", f"{op} changed a simulated buffer (hedger kind {kind})", {**detail, "before": before, "after": mid, "by": "fresh hedger"})
                 return
-        res = w.run(op, h, d, n)
+        pbefore = w.pversions()
+        try:
+            res = w.run(op, h, d, n)
+        except NoParameters:
+            ctx.skip("fit() of a parameter-free hedger kind: rest of the interleaving not judged")
+            return
         after = w.versions()
+        pafter = w.pversions()
         ctx.count(n=1)
+        if op == "AddClause" and after != before:
+            ctx.violation("purity:AddClause", "add_clause changed a simulated buffer", detail)
+            return
+        if op != "Fit" and pafter != pbefore:
+            ctx.violation(f"params-changed:{op}", f"{op} changed model parameters (only fit() may)", detail)
+            return
+        if op == "Fit":
+            other_h = "h2" if h == "h1" else "h1"
+            shared = w.kind == "shared-module-prev"        # the shared feature extractor belongs to both hedgers
+            if pafter[other_h] != pbefore[other_h] and not shared:
+                ctx.violation("params-changed:Fit:other-hedger", "fit() of one hedger changed the parameters of another hedger", detail)
+                return
         if op in READ_ONLY and after != before:
             ctx.violation(f"purity:{op}", f"{op} changed a simulated buffer (hedger kind {kind})", {**detail, "before": before, "after": after})
             return
-        if op in ("Simulate", "ComputeLoss", "Price"):
+        if op in ("Simulate", "ComputeLoss", "Price", "Fit"):
             ul = "p2" if d == "d3" else "p1"
             other = "p1" if ul == "p2" else "p2"
             if after[other] != before[other]:
@@ -249,12 +304,24 @@ def record_sessions(seed: int, n_traces: int, length: int) -> List[Dict[str, Any
             if ul not in simulated:
                 op = rng.choice(["Simulate", "ComputeLoss", "Price"])
             else:
-                op = rng.choice(["Simulate", "Payoff", "Features", "ListedSpot", "ComputeHedge", "ComputeHedge", "ComputePortfolio", "ComputePL", "ComputePL", "ComputeLoss", "Price"])
-            h = rng.choice(["h1", "h1", "h2"]) if op.startswith("Compute") or op == "Price" else "-"
-            n = rng.choice([2, 3]) if op in ("Simulate", "ComputeLoss", "Price") else 0
-            res = w.run(op, h, d, n)
-            simulated.add(ul)
-            events.append({"op": op, "h": h, "d": d, "n": n, "ver": w.versions(), "npaths": w.npaths(),
+                op = rng.choice(["Simulate", "Payoff", "Features", "ListedSpot", "ComputeHedge", "ComputeHedge", "ComputePortfolio", "ComputePL", "ComputePL", "ComputeLoss", "Price",
+                                 "AddClause", "Fit"])
+            if op == "AddClause" and w.nclauses[d] >= 2:
+                op = "Payoff"
+            h = rng.choice(["h1", "h1", "h2"]) if op.startswith("Compute") or op in ("Price", "Fit") else "-"
+            n = rng.choice([2, 3]) if op in ("Simulate", "ComputeLoss", "Price", "Fit") else 0
+            pv0 = w.pversions()
+            try:
+                res = w.run(op, h, d, n)
+            except NoParameters:
+                op, h, n = "Payoff", "-", 0
+                if ul not in simulated:
+                    continue
+                res = w.run(op, h, d, n)
+            if op == "Fit" and w.pversions()[h] == pv0[h]:
+                break                       # a step that left the parameters bit-identical (zero gradient): end this trace here
+            if op in ("Simulate", "ComputeLoss", "Price", "Fit"):
+                events.append({"op": op, "h": h, "d": d, "n": n, "ver": w.versions(), "npaths": w.npaths(), "cv": w.nclauses[d], "pvs": w.pversions(),
                            "res": 0 if (res is None or op in ("ComputeLoss", "Price")) else w.rid(res)})
         traces.append({"kind": kind, "events": events})
     return traces
@@ -379,12 +446,12 @@ def repository_test_purity(ctx: Ctx) -> None:
 def check(ctx: Ctx) -> None:
     warnings.filterwarnings("ignore")
     ex = ctx.tlc("MC_Session", "MC_Session_q_d3.cfg" if ctx.tier == "quick" else "MC_Session_t_d4.cfg", workers=8)
-    for a in ("Simulate", "Read", "Compute", "SimCompute"):
+    for a in ("Simulate", "Read", "Compute", "SimCompute", "AddClause", "Fit"):
         if ex.actions.get(a, [0, 0])[1] == 0:
             raise MachineryError(f"Session.tla: action {a} never taken")
     sim = ctx.tlc("MC_Session", "MC_Session_sim.cfg", workers=4, simulate=f"num={150 if ctx.tier == 'quick' else 1500}", depth=10, seed=ctx.seed + 5)
     n = 0
-    stride = 9 if ctx.tier == "quick" else 19
+    stride = 23 if ctx.tier == "quick" else 11
     for k, rec in enumerate(ex.records):
         if k % stride:
             continue
@@ -415,7 +482,15 @@ def check(ctx: Ctx) -> None:
                           {"kind": t["kind"], "prefix": [[e["op"], e["h"], e["d"], e["n"], e["ver"], e["res"]] for e in t["events"][:reached]]})
     ctx.sample({"recorded_session": {"kind": traces[0]["kind"], "events": traces[0]["events"][:4]}})
     # ---- binding demonstration on specification-generated behaviours (independent of /repo)
-    cands = [{"kind": "spec", "events": json.loads(json.dumps(r["hist"]))} for r in sim.records if len(r["hist"]) >= 9]
+    def with_pvs(hist):
+        out, cur = [], {"h1": 1, "h2": 1}
+        for e in json.loads(json.dumps(hist)):
+            if e["h"] != "-":
+                cur[e["h"]] = e["pv"]
+            e["pvs"] = dict(cur)
+            out.append(e)
+        return out
+    cands = [{"kind": "spec", "events": with_pvs(r["hist"])} for r in sim.records if len(r["hist"]) >= 9]
     with_ro = [g for g in cands if any(e["op"] in READ_ONLY for e in g["events"])]
     if len(with_ro) < 6:
         raise MachineryError("too few simulated behaviours with read-only operations for the binding demonstration")
@@ -430,7 +505,7 @@ def check(ctx: Ctx) -> None:
         seen_keys: Dict[str, int] = {}
         for i, e in enumerate(cand["events"]):
             if e["op"] in READ_ONLY:
-                k2 = json.dumps([e["op"], e["d"], e["ver"]])
+                k2 = json.dumps([e["op"], e["d"], e["ver"], e["cv"], e["pv"]])
                 if k2 in seen_keys:
                     e["res"] += 77                                    # same key, different result
                     bad_hist, line2 = cand, i
